@@ -155,6 +155,11 @@ BITS = {"u8": 8, "u16": 16, "u32": 32, "u64": 64, "usize": 64, "i8": 8, "i16": 1
         "bool": 1, "u128": 128, "i128": 128}
 
 
+def flow_declared(t):
+    from engine import flow as _f
+    return _f.declared(t)
+
+
 class Overflow(Exception):
     pass
 
@@ -431,6 +436,17 @@ def _reaching_def(body, pt, local, use_bb, use_idx, leaf, defs):
     return next(d for d in defs if d[0] == bb and d[1] == i)
 
 
+class _CallDef:
+    """A definition of a local by a call terminator (for eval_gated)."""
+    k = "calldef"
+
+    def __init__(self, blk):
+        self.blk = blk
+        self.term = blk.term
+        self.rv = None
+        self.place = blk.term.dest
+
+
 def eval_gated(body, pt, local, use_bb, leaf, use_idx=None, on_def=None):
     """Value of `local` as seen at (use_bb, use_idx) for one valuation of the inputs, in loop-free code: among the
     definitions of the local whose branch conditions hold under the valuation, the one latest in dominance order
@@ -498,6 +514,14 @@ def eval_gated(body, pt, local, use_bb, leaf, use_idx=None, on_def=None):
             best = _reaching_def(body, pt, local, use_bb, use_idx, leaf, [d for d in defs])
             break
     bb, i, s = best
+    if isinstance(s, _CallDef):
+        if on_def is not None:
+            v = on_def(s.blk.idx, "call", s)
+            if v is not None:
+                return v
+        if len(defs) == 1:
+            return eval_term(pt.at(use_bb, use_idx).of_local(local), leaf)
+        return eval_term(pt.at(s.blk.idx, None).of_def(s.blk.idx, "call", s.blk.term, 0), leaf)
     rv = s.rv
     if on_def is not None:
         v = on_def(bb, i, s)
@@ -505,6 +529,27 @@ def eval_gated(body, pt, local, use_bb, leaf, use_idx=None, on_def=None):
             return v
     if rv.k == "use" and rv.op.place is not None and not rv.op.place.proj:
         return eval_gated(body, pt, rv.op.place.local, bb, leaf, i, on_def)
+    # the payload of `x?` where x is a local holding a Result built in this body (a spliced helper): the value given to Ok(..)
+    if rv.k == "use" and rv.op.place is not None and len(rv.op.place.proj) == 2 and rv.op.place.proj[0][0] == "downcast" and \
+            rv.op.place.proj[0][2] == "Continue" and rv.op.place.proj[1][0] == "field":
+        for blk in body.blocks:
+            tt = blk.term
+            if not blk.cleanup and tt.k == "call" and not tt.dest.proj and tt.dest.local == rv.op.place.local and \
+                    (flow_declared(tt) or "").endswith("Try::branch") and tt.args and tt.args[0].place is not None and not tt.args[0].place.proj:
+                d_ = tt.args[0].place.local
+                built_here = any(s2.k == "assign" and not s2.place.proj and s2.place.local == d_ and s2.rv.k == "aggregate" and
+                                 s2.rv.agg == "adt" and (s2.rv.adt_name or "").endswith("Result")
+                                 for b2 in body.blocks for s2 in b2.stmts)
+                moved_here = any(s2.k == "assign" and not s2.place.proj and s2.place.local == d_ and s2.rv.k == "use" and
+                                 s2.rv.op.place is not None and not s2.rv.op.place.proj for b2 in body.blocks for s2 in b2.stmts)
+                if built_here or moved_here:
+                    return eval_gated(body, pt, d_, blk.idx, leaf, None, on_def)
+    if rv.k == "aggregate" and rv.agg == "adt" and (rv.adt_name or "").endswith("Result") and rv.variant == 0 and len(rv.ops) == 1:
+        op = rv.ops[0]
+        if op.place is not None and not op.place.proj:
+            return eval_gated(body, pt, op.place.local, bb, leaf, i, on_def)
+        if op.const_int() is not None:
+            return op.const_int()
     t = pt.at(bb, i).of_rvalue(rv, bb)
 
     def leaf2(q):
